@@ -163,6 +163,9 @@ pub fn for_each_workspace(tier: Tier, ctx: &mut Ctx, mut f: impl FnMut(&mut Ctx,
         while idx < total2 {
             tgv_core::words::decode(idx, m as u64, 2, &mut word);
             idx += 1;
+            if tier == Tier::Quick && word.len() == 2 && word[1] % 3 != 0 {
+                continue;
+            }
             if !ctx.mine() {
                 continue;
             }
@@ -176,6 +179,30 @@ pub fn for_each_workspace(tier: Tier, ctx: &mut Ctx, mut f: impl FnMut(&mut Ctx,
             };
             if !f(ctx, &case) {
                 return;
+            }
+        }
+    }
+    // 2b. diamonds: the root includes b and c, c includes b again; statements follow the includes
+    let c_stmts = ["class CC : A;", "def cc : B { let f = 3; }", "defvar A = B;"];
+    for bi in 0..m {
+        for ri in 0..m {
+            for cs in c_stmts {
+                if !ctx.mine() {
+                    continue;
+                }
+                let case = WsCase {
+                    files: vec![
+                        ("/ws/a.td".into(), format!("include \"b.td\"\ninclude \"c.td\"\n{}\ndef tail : Missing;", menu[ri])),
+                        ("/ws/b.td".into(), menu[bi].clone()),
+                        ("/ws/c.td".into(), format!("// a longer file\n// than the others\ninclude \"b.td\"\n{cs}\ndef ctail : MissingC;")),
+                    ],
+                    root: "/ws/a.td".into(),
+                    stratum: "diamond",
+                    focus: None,
+                };
+                if !f(ctx, &case) {
+                    return;
+                }
             }
         }
     }
